@@ -146,7 +146,7 @@ def run_scenario(scn, mode, deviations=None, order=None):
     def P(rel):
         return os.path.join(root, rel) if rel else root
     s = None
-    out = {}
+    out = {'root_dir': root}
     try:
         if scn.get('prior'):
             FB.build(cache, 'n', lambda b: [x(b, P, []) for x in scn['prior']])
@@ -270,6 +270,25 @@ def diff_outcome(o, seqs, scn):
     return best
 
 
+def arbitration_window(fs_exec, root):
+    """directories d (relative to the sandbox) for which one thread's `mkdir d` is followed - in execution order -
+    by another thread's `isdir d`: the window of known finding D7 (the second thread takes the fresh directory for
+    one that existed before the build).  Closed under ancestors: a directory below which something "pre-existing"
+    lies is taken for pre-existing too."""
+    made = {}
+    out = []
+    for _, tid, op, arg in fs_exec:
+        if op == 'mkdir':
+            made.setdefault(arg, tid)
+        elif op == 'isdir' and arg in made and made[arg] != tid:
+            rel = os.path.relpath(arg, root) if root else arg
+            while rel and rel != '.':
+                if rel not in out:
+                    out.append(rel)
+                rel = os.path.dirname(rel)
+    return out
+
+
 def explore_scenario(name, scn, bound, max_schedules, rng, classify=None, classes=None):
     """-> (n_schedules, failures[list of dict], lock_edges, max_decisions); `classify(outcome)` maps every
     explored schedule to an outcome class of the protocol model (collected in the set `classes`)"""
@@ -291,6 +310,7 @@ def explore_scenario(name, scn, bound, max_schedules, rng, classify=None, classe
             ks, perm, detail = diff_outcome(o, seqs, scn)
             failures.append({'scenario': name, 'deviations': {str(k): v for k, v in dev.items()}, 'differs_in': ks,
                              'closest_sequential_order': perm, 'detail': detail,
+                             'arbitration_window': arbitration_window(s.fs_exec, o.get('root_dir')),
                              'trace_tail': [list(x) for x in s.trace[-12:]]})
     return n, failures, edges, maxdec, len(seqs)
 
@@ -416,7 +436,7 @@ def run_fence(owner, method, deviations=None, after=False, owner_raises=False):
                 out['root'] = ['deadlock', str(e)[:100]]
         out['straggler'] = st['res']
         # file-system calls the straggler's call made after the owner's call had returned
-        out['late_obs'] = [n for (i, tid, n) in s.fs_exec
+        out['late_obs'] = [n for (i, tid, n, _a) in s.fs_exec
                            if tid == st['tid'] and st['closed_idx'] is not None and i > st['closed_idx']]
         out['ran'] = list(ran)
         out['tree'] = snapshot_simple(root, cache)
@@ -482,20 +502,30 @@ def judge_fence(owner, method, o):
 # ---------------------------------------------------------------------------------------------
 @core.matcher('created_dirs_lost')
 def _m_created_dirs_lost(case, fails):
+    """D7: a directory made during the build by one thread is taken for a pre-existing one by another thread
+    (the schedule has the mkdir / foreign is_dir window on that very directory) and is therefore not recorded:
+    it is missing from createdDirs, clean leaves it behind, and when the builds below it fail it is not removed.
+    Nothing else may differ from a sequential order."""
     f = fails[0]
-    if not set(f.get('differs_in', ['x'])) <= {'createdDirs', 'after_clean'}:
+    if not set(f.get('differs_in', ['x'])) <= {'createdDirs', 'after_clean', 'tree'}:
+        return False
+    window = set(f.get('arbitration_window') or [])
+    if not window:
         return False
     d = f['detail']
     if 'createdDirs' in d:
         real, seq_ = d['createdDirs']
         if not (set(real or []) < set(seq_ or [])):
             return False
-    if 'after_clean' in d:
-        real, seq_ = d['after_clean']
-        extra = [x for x in (real or []) if x not in (seq_ or [])]
-        if not extra or any(x[1] != 'dir' for x in extra):
+        if not (set(seq_ or []) - set(real or [])) <= window:
             return False
-    # the scenario must have two threads creating files below a directory that does not exist yet
+    for key in ('after_clean', 'tree'):
+        if key in d:
+            real, seq_ = d[key]
+            extra = [x for x in (real or []) if x not in (seq_ or [])]
+            missing = [x for x in (seq_ or []) if x not in (real or [])]
+            if missing or not extra or any(x[1] != 'dir' or x[0] not in window for x in extra):
+                return False
     return True
 
 
